@@ -273,6 +273,16 @@ def errs(p):
     return [[code, pos[0], pos[1], sorted(dv.items())] for pos, code, dv in p.errors]
 
 
+BAD_CONTAINERS = {"#None": None, "#empty": "", "#int": 5}
+
+
+def model_out(call, out):
+    """outcome as Lifecycle.tla names it: an out-of-domain container is 'rejected' whatever exception class says so"""
+    if call.get("frag") in BAD_CONTAINERS and out.startswith("crash:"):
+        return "rejected"
+    return out
+
+
 class CallTimeout(Exception):
     pass
 
@@ -342,8 +352,10 @@ def _run_call(p, tb, call, rec=None):
         p.rec_loops = 0
     try:
         if call.get("frag"):
-            # the container positionally or as keyword (call["conv"]); its name may be spelled in any letter case
-            tree = p.parseFragment(src, call["frag"]) if call.get("conv") == "pos" else p.parseFragment(src, container=call["frag"])
+            # the container positionally or as keyword (call["conv"]); its name may be spelled in any letter case;
+            # "#None" / "#empty" / "#int" stand for argument values outside the documented domain
+            name = BAD_CONTAINERS.get(call["frag"], call["frag"])
+            tree = p.parseFragment(src, name) if call.get("conv") == "pos" else p.parseFragment(src, container=name)
         else:
             tree = p.parse(src, False) if call.get("conv") == "pos" else p.parse(src)
         out = "ok"
@@ -471,8 +483,9 @@ def api_call(tb, call):
     src = Source(call["chunks"], call.get("fail", 0), call.get("hook"))
     try:
         if call.get("frag"):
-            tree = (html5lib.parseFragment(src, call["frag"], tb) if call.get("conv") == "pos"
-                    else html5lib.parseFragment(src, container=call["frag"], treebuilder=tb))
+            name = BAD_CONTAINERS.get(call["frag"], call["frag"])
+            tree = (html5lib.parseFragment(src, name, tb) if call.get("conv") == "pos"
+                    else html5lib.parseFragment(src, container=name, treebuilder=tb))
         else:
             tree = html5lib.parse(src, treebuilder=tb)
         return "ok", tree, None
